@@ -789,6 +789,29 @@ class History:
             "BlockReduce.filter(data shape)": lambda: vd.BlockReduce(np.mean, spacing=20.0).filter(c, np.ravel(d)[:-1]),
             "BlockReduce.filter(weight count)": lambda: vd.BlockReduce(np.average, spacing=20.0).filter(c, d, (np.ones(d.shape), np.ones(d.shape))),
             "train_test_split(data shape)": lambda: vd.train_test_split(c, np.ravel(d)[:-1], random_state=0),
+            "train_test_split(weight count)": lambda: vd.train_test_split(c, d, (np.ones(d.shape), np.ones(d.shape)), random_state=0),
+            "train_test_split(both)": lambda: vd.train_test_split(c, d, spacing=20.0, shape=(3, 3), random_state=0),
+            "block_split(both)": lambda: vd.block_split(c, spacing=20.0, shape=(3, 3)),
+            "block_split(W>E)": lambda: vd.block_split(c, spacing=20.0, region=bad_region),
+            "BlockReduce(both).filter": lambda: vd.BlockReduce(np.mean, spacing=20.0, shape=(3, 3)).filter(c, d),
+            "BlockReduce(W>E).filter": lambda: vd.BlockReduce(np.mean, spacing=20.0, region=bad_region).filter(c, d),
+            "BlockReduce.filter(coordinate shapes)": lambda: vd.BlockReduce(np.mean, spacing=20.0).filter((np.ravel(c[0]), np.ravel(c[1])[:-1]), np.ravel(d)),
+            "BlockMean(both).filter": lambda: vd.BlockMean(spacing=20.0, shape=(3, 3)).filter(c, d),
+            "BlockMean.filter(data shape)": lambda: vd.BlockMean(spacing=20.0).filter(c, np.ravel(d)[:-1]),
+            "BlockMean.filter(weight size)": lambda: vd.BlockMean(spacing=20.0).filter(c, d, np.ones(d.size - 1)),
+            "rolling_window(both)": lambda: vd.rolling_window(c, size=30.0, spacing=20.0, shape=(3, 3)),
+            "rolling_window(coordinate shapes)": lambda: vd.rolling_window((np.ravel(c[0]), np.ravel(c[1])[:-1]), size=30.0, spacing=20.0),
+            "BlockKFold(both)": lambda: list(vd.BlockKFold(spacing=20.0, shape=(3, 3)).split(np.column_stack([np.ravel(c[0]), np.ravel(c[1])]))),
+            "BlockShuffleSplit(both)": lambda: list(vd.BlockShuffleSplit(spacing=20.0, shape=(3, 3)).split(np.column_stack([np.ravel(c[0]), np.ravel(c[1])]))),
+            "Trend.scatter(W>E)": lambda: vd.Trend(1).fit(c, d).scatter(region=bad_region, size=5, random_state=0),
+            "Trend.grid(S>N)": lambda: vd.Trend(1).fit(c, d).grid(region=bad_region2, spacing=20.0),
+            "Trend.score(data shape)": lambda: vd.Trend(1).fit(c, d).score(c, np.ravel(d)[:-1]),
+            "Trend.score(weight size)": lambda: vd.Trend(1).fit(c, d).score(c, d, np.ones(d.size - 1)),
+            "Trend.filter(data shape)": lambda: vd.Trend(1).filter(c, np.ravel(d)[:-1]),
+            "inside(S>N)": lambda: vd.inside(c, bad_region2),
+            "project_region(W>E)": lambda: vd.project_region(bad_region, lambda x, y: (x, y)),
+            "SplineCV.fit(weight size)": lambda: vd.SplineCV(dampings=(1e-2, 1.0)).fit(c, d, np.ones(d.size - 1)),
+            "cross_val_score(data shape)": lambda: vd.cross_val_score(vd.Trend(1), c, np.ravel(d)[:-1]),
             "cross_val_score(weight size)": lambda: vd.cross_val_score(vd.Trend(1), c, d, np.ones(d.size - 1)),
         }
         name = self.tape.pick(sorted(cases), "invalid.which")
